@@ -661,7 +661,7 @@ impl Prop for C35 {
         }
     }
     fn phases(&self, tier: Tier) -> Vec<Phase<Case>> {
-        vec![Phase::random("rewrites", cases(), tier.pick(30_000, 1_500_000))]
+        vec![Phase::random("rewrites", cases(), tier.pick(30_000, 800_000))]
     }
     fn render(&self, c: &Case) -> serde_json::Value {
         let (a, b, applied) = c.build();
